@@ -467,7 +467,19 @@ func (node *TopNode) getParts(src *syntax.CallStm,
 					})
 				}
 			} else if fork.forkId.Matches(forkId) {
-				matchingParts = append(matchingParts, p)
+				// Several forks of the bound node share one index of
+				// this call when the node is also forked over other
+				// calls.
+				seen := false
+				for _, q := range matchingParts {
+					if indexEqual(q.Id, p.Id) {
+						seen = true
+						break
+					}
+				}
+				if !seen {
+					matchingParts = append(matchingParts, p)
+				}
 			}
 		}
 		parts = matchingParts
